@@ -80,6 +80,13 @@ def check_text(ctx, T, label, case, canonical, emitted_ast=None):
       if re.search(r"(?<![\w.])%s\.\w" % re.escape(al), T.split("\n\n", 1)[-1]):
         fsfx = ":aliased-module-import"
         break
+  if not fsfx and P != T:
+    # third root-cause bucket: the only difference between the two prints is
+    # a `: Any` on parameters that the second print leaves out
+    import re
+    drop = lambda x: re.sub(r"(\*{0,2}\w+): Any\b", r"\1", x)
+    if drop(P) == drop(T):
+      fsfx = ":Any-parameter-annotation-dropped-by-second-print"
   ctx.check(P == T, "print-parse-not-fixed-point" + fsfx,
             "%s: Print(parse(T)) != T\n--- T\n%s\n--- Print(parse(T))\n%s" %
             (label, T[:1200], P[:1200]), case)
@@ -301,7 +308,7 @@ def confirm_known(entry):
 
   c.check = collect
   try:
-    progs_c05.replay(c, entry["input"], check_text)
+    replay(c, entry["input"])
   except Violation as v:
     sigs.add(v.signature)
   return entry["signature"] in sigs
